@@ -22,6 +22,9 @@
 //!   B:<hex>                             raw bytes, delivered as one read chunk (byte-level replies: C04/C05/C11 end to end)
 //!   S:<id>:h<n>|c<n>:<timeout_ns>:f     read n holding registers / coils from address id; the completion carries the values
 //!   W   V:<ns>                          the next write fails / takes <ns>
+//!   WP  WR                              the transport's transmit path is full: it takes nothing (`WriteStep::Block` of the scripted
+//!                                       wire; parks add up and outlive the connection) / one park is over (the parked write is polled again)
+//!   WA:<k>                              the transport takes at most k bytes of what is offered next (`WriteStep::Accept(k)`)
 //!   T:<ns>                              advance virtual time
 //!   ~<step>                             the same step, but the runtime is not allowed to settle before the next step
 //! output line: <task log>|<completion log>|<live|done>
@@ -53,6 +56,8 @@ struct Shared {
     fail_write: bool,
     write_delay: Option<Duration>,
     writing: bool,
+    /// parks of the transmit path (WP) not yet released (WR)
+    parks: usize,
     /// index of the script step being executed
     step: usize,
     /// RTU framing (no MBAP header, no transaction id, CRC)
@@ -88,11 +93,16 @@ fn complete(ctl: &Ctl, id: u32, class: &str) {
     c.completions.push(format!("c{id}:{class}@{t}#{k}"));
 }
 
-/// the transport of one connection: the shared scripted wire plus write faults / slow writes
+/// the transport of one connection: the shared scripted wire (inbound chunks; transmit path that takes a frame in
+/// pieces or nothing at all) plus write faults / slow writes
 struct ConnWire {
     wire: Wire,
     ctl: Ctl,
     sleep: Option<Pin<Box<tokio::time::Sleep>>>,
+    /// bytes of the frame in progress the transport has not taken yet (0: no frame in progress)
+    remaining: usize,
+    tx: String,
+    id: u16,
 }
 
 impl Drop for ConnWire {
@@ -113,43 +123,57 @@ impl AsyncRead for ConnWire {
 impl AsyncWrite for ConnWire {
     fn poll_write(self: Pin<&mut Self>, cx: &mut Context<'_>, b: &[u8]) -> Poll<std::io::Result<usize>> {
         let me = self.get_mut();
-        let rtu = me.ctl.lock().unwrap().rtu;
-        // MBAP: tx(2) proto(2) len(2) unit fc addr(2) ..; RTU: unit fc addr(2) .. crc(2), no transaction id
-        let tx = if rtu { "-".to_string() } else { u16::from_be_bytes([b[0], b[1]]).to_string() };
-        let id = if rtu {
-            if b.len() >= 4 { u16::from_be_bytes([b[2], b[3]]) } else { 0xFFFF }
-        } else if b.len() >= 10 {
-            u16::from_be_bytes([b[8], b[9]])
-        } else {
-            0xFFFF
-        };
-        if me.sleep.is_none() {
+        if me.remaining == 0 {
+            // a new frame: write_all offers all of it first
+            let rtu = me.ctl.lock().unwrap().rtu;
+            // MBAP: tx(2) proto(2) len(2) unit fc addr(2) ..; RTU: unit fc addr(2) .. crc(2), no transaction id
+            me.tx = if rtu { "-".to_string() } else { u16::from_be_bytes([b[0], b[1]]).to_string() };
+            me.id = if rtu {
+                if b.len() >= 4 { u16::from_be_bytes([b[2], b[3]]) } else { 0xFFFF }
+            } else if b.len() >= 10 {
+                u16::from_be_bytes([b[8], b[9]])
+            } else {
+                0xFFFF
+            };
             let mut c = me.ctl.lock().unwrap();
             if c.fail_write {
                 c.fail_write = false;
                 c.write_delay = None;
-                c.task_log.push(format!("x{tx}:{id}"));
+                c.task_log.push(format!("x{}:{}", me.tx, me.id));
                 return Poll::Ready(Err(std::io::ErrorKind::BrokenPipe.into()));
             }
             if let Some(d) = c.write_delay.take() {
-                c.writing = true;
                 me.sleep = Some(Box::pin(tokio::time::sleep(d)));
             }
+            me.remaining = b.len();
         }
         if let Some(s) = me.sleep.as_mut() {
             match s.as_mut().poll(cx) {
-                Poll::Pending => return Poll::Pending,
-                Poll::Ready(()) => {
-                    me.sleep = None;
-                    me.ctl.lock().unwrap().writing = false;
+                Poll::Pending => {
+                    me.ctl.lock().unwrap().writing = true;
+                    return Poll::Pending;
                 }
+                Poll::Ready(()) => me.sleep = None,
             }
         }
-        let mut c = me.ctl.lock().unwrap();
-        let t = now_ns(&c);
-        let k = c.step;
-        c.task_log.push(format!("w{tx}:{id}@{t}#{k}"));
-        Poll::Ready(Ok(b.len()))
+        match Pin::new(&mut me.wire).poll_write(cx, b) {
+            Poll::Pending => {
+                me.ctl.lock().unwrap().writing = true;
+                Poll::Pending
+            }
+            Poll::Ready(Ok(n)) => {
+                me.remaining -= n.min(me.remaining);
+                let mut c = me.ctl.lock().unwrap();
+                c.writing = me.remaining > 0;
+                if me.remaining == 0 {
+                    let t = now_ns(&c);
+                    let k = c.step;
+                    c.task_log.push(format!("w{}:{}@{t}#{k}", me.tx, me.id));
+                }
+                Poll::Ready(Ok(n))
+            }
+            Poll::Ready(Err(e)) => Poll::Ready(Err(e)),
+        }
     }
     fn poll_flush(self: Pin<&mut Self>, _cx: &mut Context<'_>) -> Poll<std::io::Result<()>> {
         Poll::Ready(Ok(()))
@@ -207,12 +231,20 @@ async fn channel_task(
                 }
                 retry.reset();
                 let wire = Wire::new();
-                ctl.lock().unwrap().wire = Some(wire.clone());
+                {
+                    let mut c = ctl.lock().unwrap();
+                    // the transmit path is the environment's, not the connection's: parks not yet released carry over
+                    wire.script_writes(&vec![crate::wire::WriteStep::Block; c.parks]);
+                    c.wire = Some(wire.clone());
+                }
                 let reason = sess
                     .run(Box::new(ConnWire {
                         wire,
                         ctl: ctl.clone(),
                         sleep: None,
+                        remaining: 0,
+                        tx: String::new(),
+                        id: 0,
                     }))
                     .await;
                 let short = match reason.as_str() {
@@ -487,6 +519,37 @@ async fn run_case(line: &str, initial: DecodeLevel) -> String {
                 }
             }
             "W" => ctl.lock().unwrap().fail_write = true,
+            "WP" => {
+                let mut c = ctl.lock().unwrap();
+                c.parks += 1;
+                if let Some(w) = c.wire.as_ref() {
+                    // in FRONT of the Accept steps still waiting: a full transmit path takes nothing at all
+                    w.0.lock().unwrap().write_script.push_front(crate::wire::WriteStep::Block);
+                }
+            }
+            "WA" => {
+                let c = ctl.lock().unwrap();
+                if let Some(w) = c.wire.as_ref() {
+                    w.script_writes(&[crate::wire::WriteStep::Accept(p[1].parse().unwrap())]);
+                }
+            }
+            "WR" => {
+                let mut c = ctl.lock().unwrap();
+                if c.parks > 0 {
+                    c.parks -= 1;
+                    if let Some(w) = c.wire.as_ref() {
+                        // `Wire::release_write` with the Block looked for behind Accept steps as well
+                        let mut g = w.0.lock().unwrap();
+                        if let Some(ix) = g.write_script.iter().position(|x| *x == crate::wire::WriteStep::Block) {
+                            g.write_script.remove(ix);
+                        }
+                        g.write_blocked = false;
+                        if let Some(wk) = g.write_waker.take() {
+                            wk.wake();
+                        }
+                    }
+                }
+            }
             "V" => {
                 let ns: u128 = p[1].parse().unwrap();
                 ctl.lock().unwrap().write_delay = if ns == 0 { None } else { Some(dur(ns)) };
